@@ -91,6 +91,18 @@ def _lens_cases(ctx, nl, rays_per):
                                 rng.choice([0.0, 0.0, 1.0, rng.uniform(0.0, 1.0), rng.uniform(0.0, 1.0)])]
             if isinstance(s['material'], list) and s['material'][0] == 'ideal' and rng.random() < 0.5:
                 s['material'][2] = rng.uniform(0, 5e-6)
+        if li % 5 == 3:
+            # strong absorbers as thin films (metal / semiconductor / dye layers: k up to a few, nm to um thick) and
+            # pure central obscurations (r_max = inf): regimes where an 'equivalent' rewrite under- or overflows
+            for s in spec['surfaces'][:-1]:
+                if isinstance(s['material'], list) and s['material'][0] == 'ideal' and rng.random() < 0.7:
+                    s['material'][2] = 10 ** rng.uniform(-2.5, 0.6)
+                    s['thickness'] = math.copysign(10 ** rng.uniform(-5.0, -2.5), s['thickness'])
+                    hist['thin_strong_absorbers'] = hist.get('thin_strong_absorbers', 0) + 1
+            for s in spec['surfaces']:
+                if s.get('aperture') and s['aperture'][1] > 0 and rng.random() < 0.6:
+                    s['aperture'] = [float('inf'), s['aperture'][1]]
+                    hist['pure_obscurations'] = hist.get('pure_obscurations', 0) + 1
         if li % 3 == 2:
             # apertures on clearly decentred / tilted surfaces: the aperture belongs to the surface's own frame
             for s in spec['surfaces']:
